@@ -1569,7 +1569,9 @@ pub fn codegen(
                     }
                 } else {
                     // If the same symbols are undefined that were undefined in the previous pass, they are truly undefined.
-                    if ctx.undefined == prev_undefined {
+                    // (Symbols whose value changed are in that set as well, to trigger another pass: as long as values
+                    // are still moving, e.g. labels shifting while operands change size, nothing can be concluded.)
+                    if ctx.undefined == prev_undefined && symbol_values == prev_symbol_values {
                         let errors = ctx
                             .undefined
                             .iter()
